@@ -129,7 +129,7 @@ impl Prop for C11 {
         for s in &seqs {
             cs.push(Case { events: s.clone(), user_id: uid, share_id: sid, block: "sequences", lenient: false, caps: 0, write_cap: 0, reactivated: 0 });
             for pos in 0..=s.len() {
-                for k in 0..7u8 {
+                for k in 0..9u8 {
                     let mut e = s.clone();
                     e.insert(pos, Ev::Server(k));
                     cs.push(Case { events: e, user_id: uid, share_id: sid, block: "sequences-with-server-traffic", lenient: false, caps: 0, write_cap: 0, reactivated: 0 });
@@ -201,7 +201,7 @@ impl Prop for C11 {
         json!({"idx": idx, "block": c.block, "user_id": c.user_id, "share_id": c.share_id, "n_events": c.events.len(), "events": c.events.iter().take(8).collect::<Vec<_>>()})
     }
     fn rule(&self) -> String {
-        "cases = event sequences submitted through RdpClient::write on a really activated client (raw stack), decoded by the reference peer. [all-x/all-y/all-scancodes] every value 0..65535 of x, y and scancode (batches of 64 events, order checked); [buttons] 4 buttons x 2 press states x 5x5 boundary coordinates; [sequences] every sequence of <=3 (<=5 in thorough) events over a 9-letter alphabet incl. an unsendable kind, alone and with one server PDU (fast-path bitmap, set-error-info, unknown data PDU, a demand-active or a confirm-active arriving in the active state, an indication on the user channel or on another static channel) interleaved at every position; [refused-write] one write refused by the transport (WouldBlock / TimedOut / Other, before its first byte) at every position of every sequence of <=2 events; [write-refused-inside-the-frame] the transport takes 1..40 bytes of the frame of the last event and then refuses once: Ok only with exactly one whole PDU on the wire, Err only with that prefix; [identifiers] server-assigned user ids x share ids; [entry-point-x-capabilities-x-transport] a probe sequence (incl. the unsendable kind through write and try_write, a repeated pointer move) through write / try_write x 5 server capability lists (Windows, minimal, input capability without the scancode flag, no input capability, unknown sets) x a transport accepting 1..48 bytes per write; every sequence of <=2 events through try_write, and with the no-scancode-flag list on a 3-byte transport; [after-reactivation] every sequence of <=2 events after a deactivate-all and a second activation with another / the same share id (3 base share ids), also with server finalization PDUs that name the previous share or share 0: the PDUs name the share of the last demand-active. Non-trivial: >= 2 events or non-default identifiers.".into()
+        "cases = event sequences submitted through RdpClient::write on a really activated client (raw stack), decoded by the reference peer. [all-x/all-y/all-scancodes] every value 0..65535 of x, y and scancode (batches of 64 events, order checked); [buttons] 4 buttons x 2 press states x 5x5 boundary coordinates; [sequences] every sequence of <=3 (<=5 in thorough) events over a 9-letter alphabet incl. an unsendable kind, alone and with one server PDU (fast-path bitmap, set-error-info, unknown data PDU, a demand-active or a confirm-active arriving in the active state, an indication on the user channel or on another static channel, data PDUs naming share id 0 / another share id) interleaved at every position; [refused-write] one write refused by the transport (WouldBlock / TimedOut / Other, before its first byte) at every position of every sequence of <=2 events; [write-refused-inside-the-frame] the transport takes 1..40 bytes of the frame of the last event and then refuses once: Ok only with exactly one whole PDU on the wire, Err only with that prefix; [identifiers] server-assigned user ids x share ids; [entry-point-x-capabilities-x-transport] a probe sequence (incl. the unsendable kind through write and try_write, a repeated pointer move) through write / try_write x 5 server capability lists (Windows, minimal, input capability without the scancode flag, no input capability, unknown sets) x a transport accepting 1..48 bytes per write; every sequence of <=2 events through try_write, and with the no-scancode-flag list on a 3-byte transport; [after-reactivation] every sequence of <=2 events after a deactivate-all and a second activation with another / the same share id (3 base share ids), also with server finalization PDUs that name the previous share or share 0: the PDUs name the share of the last demand-active. Non-trivial: >= 2 events or non-default identifiers.".into()
     }
     fn assumptions(&self) -> Vec<String> {
         vec![
@@ -311,6 +311,10 @@ impl Prop for C11 {
                         // indications on other channels than the global one: the user channel, another static channel
                         5 => framing::tpkt(&framing::x224_dt(&mcs::send_data_indication(1002, c.user_id, &share::set_error_info(c.share_id, 1002, 0)))),
                         6 => framing::tpkt(&framing::x224_dt(&mcs::send_data_indication(1002, 1004, &[1, 2, 3, 4]))),
+                        // data PDUs whose share id field is not the id of the share (0 / another value): the share id the
+                        // client uses comes from the demand-active alone
+                        7 => sdi(&share::set_error_info(0, 1002, 0)),
+                        8 => sdi(&share::save_session_info(c.share_id ^ 0x0101_0000, 1002)),
                         0 => framing::fastpath(0, &fastpath::updates_payload(&[Update::Bitmap(vec![Rect { left: 0, top: 0, right: 1, bottom: 0, width: 2, height: 1, bpp: 16, flags: 0, data: vec![1, 2, 3, 4] }])]), false),
                         1 => sdi(&share::set_error_info(c.share_id, 1002, 5)),
                         2 => sdi(&share::save_session_info(c.share_id, 1002)),
